@@ -385,3 +385,73 @@ def check_reflection_fits(ctx, rep):
         else:
             _bad(rep, "isa:reflect-then-fits", e.where(), "IsA::eval is %s, expected ns.reflect(dict).fits(symbol)" % ret[:160])
     return n
+
+
+FULL_SCANS = ["supertypes_of", "compute_subtypes", "all_subtypes_of", "all_supertypes_of", "reflect", "find_supertypes_from_defs", "find_conjuncts", "inheritance"]
+
+
+def check_full_scans(ctx, rep):
+    """the query functions look at every element of the lists they walk: each iterator loop is left only when its iterator
+    is exhausted (or the work list is empty) - a `break` on some element silently drops the rest of an `is` list or of a
+    subtree, which an acyclic sample never shows"""
+    prog = ctx.prog
+    n = 0
+    for fn in FULL_SCANS:
+        b = prog.get(NS + fn)
+        if b is None:
+            rep.gap(NS + fn, "-", "not found")
+            continue
+        k = 0
+        for scc in b.sccs():
+            if len(scc) < 2:
+                continue
+            heads = [x for x in scc if b.term(x)["k"] == "call" and strip_generics(mir.callee_name(b.term(x)) or "").endswith("Iterator>::next")]
+            if not heads:
+                continue
+            for h in heads:
+                n += 1
+                # the loop of this header: blocks of the SCC that can reach h without leaving the SCC and are reachable from h
+                # natural loop of h: h plus the blocks that reach a back edge (u -> h, h dominates u) without passing through h
+                idom = b.idom()
+
+                def dominated_by(x, hh):
+                    while True:
+                        if x == hh:
+                            return True
+                        if x == 0 or x not in idom:
+                            return False
+                        x = idom[x]
+
+                loop = {h}
+                work = [u for u in b.pred(h) if u in scc and dominated_by(u, h)]
+                while work:
+                    x = work.pop()
+                    if x in loop:
+                        continue
+                    loop.add(x)
+                    work.extend(p for p in b.pred(x) if p in scc)
+                # inner-most: drop blocks that belong to a nested loop with its own header only if they cannot exit; keep simple: all exits of `loop`
+                bad = []
+                for u in loop:
+                    for v in b.succ(u):
+                        if v in loop:
+                            continue
+                        t = b.term(u)
+                        ok = False
+                        if t["k"] == "switch":
+                            r = repr(G.describe(b, t["op"]))
+                            if r.startswith("discr:(") and "Iterator>::next(" in r:
+                                ok = True  # exhaustion of an iterator of this loop nest
+                            if "is_empty(" in r or "Vec::pop(" in r:
+                                ok = True  # work list empty
+                            if "Try>::branch" in r:
+                                ok = True  # error propagation
+                        if not ok:
+                            bad.append((u, v))
+                key = "%s:loop#%d:left-only-when-exhausted" % (fn, k)
+                k += 1
+                if bad:
+                    _bad(rep, "%s:full-scan" % fn, b.where(bad[0][0]), "a loop of %s can be left before its iterator is exhausted (edge bb%d -> bb%d): the remaining elements are never looked at" % (fn, bad[0][0], bad[0][1]))
+                else:
+                    _ok(rep, key, b.where(h), "the loop is left only on exhaustion")
+    return n
